@@ -294,13 +294,16 @@ def _origin(e, hb, role_of=None):
         if nm in cparams:
             return "closure-param"
         return nm
+    stop = set(args) | cparams | set(role_of or {})
     e = strip(e)
+    if not (e.get("k") == "Path" and e.get("res", {}).get("name") in stop):
+        e = deref(e)
     if e.get("k") == "Call" and norm(e.get("callee", "")).endswith("iter::sources::once::once"):
-        inner = strip(e["args"][0])
+        inner = deref(e["args"][0])
         if inner.get("k") == "Call" and norm(inner.get("callee", "")).endswith("Result::Ok"):
             return "once-ok:" + str(role(local_name(inner["args"][0])))
         return "once:?"
-    root, ch = chain(e, follow=False)
+    root, ch = chain(e, stop=stop)
     nm = local_name(root)
     if nm:
         v = chain_verdict(ch)
@@ -339,7 +342,7 @@ def rule_defaults(E, R):
                     "got (%s, %s); expected the call's `args` followed by `opt_args`" % (a, b), c["sp"])
         elif fn == COMPILE_FN:
             good = a == "once-ok:closure-param" and b == "local:args"
-            R.check(good, rule, fn, "mapped element first, remaining arguments after it (%s)" % ("memoised" if "extra" in str(c["args"][1]) else "re-evaluated"),
+            R.check(good, rule, fn, "mapped element first, remaining arguments after it (%s)" % ("memoised" if "extra" in str(deref(c["args"][1]).get("recv", c["args"][1])) or "extra" in str(c["args"][1]) else "re-evaluated"),
                     "got (%s, %s)" % (a, b), c["sp"])
         else:
             R.undecided(rule, fn, "unreviewed ExactSizeChain::new site", "(%s, %s)" % (a, b), c["sp"])
